@@ -264,7 +264,8 @@ func (eval Evaluator[T]) EvaluatePolynomialVectorFromPowerBasis(targetLevel int,
 	// Retrieve the degree of the highest degree non-zero coefficient
 	// TODO: optimize for nil/zero coefficients
 	minimumDegreeNonZeroCoefficient := len(pol.Value[0].Coeffs) - 1
-	if even && !odd {
+	// An even polynomial of odd formal degree has a zero leading coefficient.
+	if even && !odd && minimumDegreeNonZeroCoefficient&1 == 1 {
 		minimumDegreeNonZeroCoefficient--
 	}
 
